@@ -143,8 +143,17 @@ func genHistory(t *rapid.T, n int, distinctRTD bool) []sample {
 	seen := map[int64]bool{}
 	var h []sample
 	t0 := int64(0)
+	// the client's clock need not run forward from one sample to the next: it may be set back (once, at a drawn
+	// position, in a third of the histories), and single samples may carry a much earlier transmit time
+	setBackAt := -1
+	if rapid.IntRange(0, 2).Draw(t, "clock-set-back") == 0 {
+		setBackAt = rapid.IntRange(0, n).Draw(t, "set-back-at")
+	}
 	for i := 0; i < n; i++ {
 		t0 += rapid.Int64Range(1, int64(64*time.Second)).Draw(t, "gap")
+		if i == setBackAt {
+			t0 -= rapid.Int64Range(int64(time.Second), int64(48*time.Hour)).Draw(t, "set-back-by")
+		}
 		dg := rapid.OneOf(rapid.Int64Range(0, int64(2*time.Second)), rapid.Int64Range(0, int64(time.Millisecond)), rapid.Int64Range(0, 50))
 		d1, d2 := dg.Draw(t, "d1"), dg.Draw(t, "d2")
 		p := rapid.Int64Range(0, int64(time.Millisecond)).Draw(t, "proc")
@@ -169,7 +178,7 @@ func genHistory(t *rapid.T, n int, distinctRTD bool) []sample {
 	return h
 }
 
-var recLucky = ev.New("c17/lucky-packet", "rapid: capacity 1..32, pick 1..40 (and the zero-value filter), histories of 1..100 exchanges (true offset within +-1 day, one-way delays 0..2 s and, for a quarter of the samples, an over-reported server turnaround (measured round-trip delay down to negative values), pairwise distinct in round-trip delay, Reset() at generated positions); oracle: naive reference (last <=N samples since the last reset, k=min(pick,N,available) lowest exact round-trip delays, median of exact integer offsets; even count within 1 ns of the midpoint). One evaluation = one history. Non-trivial: history containing a full window with pick < capacity; distinct by history hash")
+var recLucky = ev.New("c17/lucky-packet", "rapid: capacity 1..32, pick 1..40 (and the zero-value filter), histories of 1..100 exchanges (true offset within +-1 day, one-way delays 0..2 s and, for a quarter of the samples, an over-reported server turnaround (measured round-trip delay down to negative values), pairwise distinct in round-trip delay, Reset() at generated positions; in a third of the histories the client's clock is set back by 1 s..2 days at a drawn position, so that transmit times do not increase in arrival order); oracle: naive reference (last <=N samples since the last reset, k=min(pick,N,available) lowest exact round-trip delays, median of exact integer offsets; even count within 1 ns of the midpoint). One evaluation = one history. Non-trivial: history containing a full window with pick < capacity; distinct by history hash")
 
 func TestPropLucky(t *testing.T) {
 	vt.Check(t, 60000, 400000, func(t *rapid.T) {
